@@ -58,6 +58,16 @@ func (e *fnEnc) runTop() {
 		e.fail("no body")
 	}
 	e.analyseCFG()
+	if c := e.contract; c != nil {
+		// a loop clause that names no loop of the function would silently check nothing
+		for _, set := range [][]*Clause{c.Invs, c.Decs, c.Assumes, c.Steps, c.Exits} {
+			for _, cl := range set {
+				if n := e.clauseLoop(cl); n != allLoops && (n < 0 || n >= len(e.loops)) {
+					e.fail("loop clause %q (%s:%d) names no loop of %s", cl.Src, cl.File, cl.Line, e.fn.Name())
+				}
+			}
+		}
+	}
 	e.cur = map[string]string{}
 	for _, k := range vc.sortedKeyNames() {
 		e.cur[k] = vc.decl("H0!"+k, vc.keys[k].Sort)
@@ -308,6 +318,9 @@ func (e *fnEnc) block(b *ssa.BasicBlock, entryGuard string) {
 				}
 				sort.Strings(ks)
 				for _, k := range ks {
+					if strings.HasPrefix(k, "HITS!") {
+						continue // havocked below, with the fact that counters only grow
+					}
 					e.havoc(k)
 				}
 			}
@@ -368,7 +381,7 @@ func predIndex(b, p *ssa.BasicBlock) int {
 func (e *fnEnc) loopClauses(li *loopInfo) (invs, decs []*Clause) {
 	if c := e.contract; c != nil {
 		for _, cl := range c.Invs {
-			if e.clauseLoop(cl) == li.ordinal {
+			if n := e.clauseLoop(cl); n == li.ordinal || n == allLoops {
 				invs = append(invs, cl)
 			}
 		}
@@ -752,11 +765,17 @@ func (e *fnEnc) writesType(T types.Type) bool {
 	return false
 }
 
+// allLoops: the selector "all" attaches an invariant to every loop of the function.
+const allLoops = -3
+
 // clauseLoop resolves the loop a clause is attached to: a plain ordinal, or a selector naming the
 // ranged-over expression ("range:EXPR#k") or the loop condition ("for:COND#k") as written in the source.
 func (e *fnEnc) clauseLoop(cl *Clause) int {
 	if cl.LoopSel == "" {
 		return cl.Loop
+	}
+	if cl.LoopSel == "all" {
+		return allLoops
 	}
 	if e.loopSels == nil {
 		e.loopSels = map[string]int{}
